@@ -126,6 +126,56 @@ theorem prop_success (top : Int) : ∀ (cap : Nat) (x : Int) (coins : List Bool)
               simp only [List.length_cons] at htake
               simp [coinsOf, hcoin, htake]
 
+/-! ### the coins determine the segment -/
+
+theorem step_coin_inj (x y y' : Int) (h : y = x + 1 ∨ y = x - 1) (h' : y' = x + 1 ∨ y' = x - 1)
+    (hc : decide (y = x + 1) = decide (y' = x + 1)) : y = y' := by
+  rcases h with h | h <;> rcases h' with h' | h'
+  · omega
+  · have : ¬ (y' = x + 1) := by omega
+    simp [h, this] at hc
+  · have : ¬ (y = x + 1) := by omega
+    simp [h', this] at hc
+  · omega
+
+/-- the coins determine the segment: a segment ends at its first frame outside -/
+theorem seg_coins_unique (top : Int) : ∀ (s1 : List Int) (x : Int) (s2 : List Int) (e1 : List Bool),
+    Seg top x s1 → Seg top x s2 → (coinsOf x s1 ++ e1).take s2.length = coinsOf x s2 → s1 = s2
+  | [], _, _, _, h, _, _ => by simp [Seg] at h
+  | [y], x, s2, e1, h1, h2, hc => by
+    obtain ⟨hs, ho⟩ := h1
+    cases s2 with
+    | nil => simp [Seg] at h2
+    | cons y' t' =>
+      cases t' with
+      | nil =>
+        obtain ⟨hs', _⟩ := h2
+        simp only [coinsOf, List.cons_append, List.length_cons, List.take_succ_cons, List.cons.injEq] at hc
+        rw [step_coin_inj x y y' hs hs' hc.1]
+      | cons z' t'' =>
+        obtain ⟨hs', hy', _⟩ := h2
+        simp only [coinsOf, List.cons_append, List.length_cons, List.take_succ_cons, List.cons.injEq] at hc
+        have := step_coin_inj x y y' hs hs' hc.1
+        omega
+  | y :: z :: t, x, s2, e1, h1, h2, hc => by
+    obtain ⟨hs, hy, hrest⟩ := h1
+    cases s2 with
+    | nil => simp [Seg] at h2
+    | cons y' t' =>
+      cases t' with
+      | nil =>
+        obtain ⟨hs', ho'⟩ := h2
+        simp only [coinsOf, List.cons_append, List.length_cons, List.take_succ_cons, List.cons.injEq] at hc
+        have := step_coin_inj x y y' hs hs' hc.1
+        omega
+      | cons z' t'' =>
+        obtain ⟨hs', hy', hrest'⟩ := h2
+        simp only [coinsOf, List.cons_append, List.length_cons, List.take_succ_cons, List.cons.injEq] at hc
+        have e := step_coin_inj x y y' hs hs' hc.1
+        subst e
+        have := seg_coins_unique top (z :: t) y (z' :: t'') e1 hrest hrest' (by simpa [coinsOf] using hc.2)
+        rw [this]
+
 /-! ### the match count is symmetric -/
 
 theorem matchCount_nil_right : ∀ a : List Int, matchCount a [] = 0
@@ -148,5 +198,34 @@ theorem matchCount_symm : ∀ (a b : List Int), matchCount a b = matchCount b a
   | x :: t, b => by
     rw [matchCount_cons_right x b t, ← matchCount_symm t b]
     simp [matchCount]
+
+/-! ### the enumerated assignments -/
+
+/-- every enumerated assignment gives each of the n ensembles a path index below n -/
+theorem perms_spec : ∀ (n : Nat) (σ : List Nat), σ ∈ perms n → σ.length = n ∧ ∀ j ∈ σ, j < n
+  | 0, σ, h => by
+    simp [perms] at h
+    subst h
+    simp
+  | n + 1, σ, h => by
+    simp only [perms, List.mem_flatMap, List.mem_map, List.mem_range] at h
+    obtain ⟨p, hp, k, hk, rfl⟩ := h
+    obtain ⟨hl, hlt⟩ := perms_spec n p hp
+    constructor
+    · simp only [insertAt, List.length_append, List.length_take, List.length_cons, List.length_drop]
+      omega
+    · intro j hj
+      simp only [insertAt, List.mem_append, List.mem_cons] at hj
+      rcases hj with hj | hj | hj
+      · exact Nat.lt_succ_of_lt (hlt j (List.mem_of_mem_take hj))
+      · omega
+      · exact Nat.lt_succ_of_lt (hlt j (List.mem_of_mem_drop hj))
+
+theorem assignments_spec (W : List (List Rat)) : ∀ a ∈ assignments W,
+    a.1.length = W.length ∧ ∀ j ∈ a.1, j < W.length := by
+  intro a ha
+  simp only [assignments, List.mem_map] at ha
+  obtain ⟨σ, hσ, rfl⟩ := ha
+  exact perms_spec W.length σ hσ
 
 end Infretis.LatticeMoves
